@@ -149,6 +149,13 @@ P("cfg_btn_press_count", CFG_BTN_PRESS_COUNT);
     if not mm or mm.group(2) != mm.group(3) or mm.group(4) != mm.group(5):
         raise ExtractError("countdown startstop: period rule not recognised")
     a.update({"cd_div": mm.group(1), "cd_min": mm.group(2), "cd_max": mm.group(4)})
+    h = run_probe("p_cfg", """
+P("cfg_len", sizeof(SuplaEspCfg)); P("cfg_guid", SUPLA_GUID_SIZE); P("cfg_auth", SUPLA_AUTHKEY_SIZE);
+P("cfg_off_guid", offsetof(SuplaEspCfg, GUID)); P("cfg_off_auth", offsetof(SuplaEspCfg, AuthKey));
+P("cfg_off_server", offsetof(SuplaEspCfg, Server)); P("cfg_state_len", sizeof(SuplaEspState));
+P("cfg_sector", CFG_SECTOR); P("cfg_state_off", STATE_SECTOR_OFFSET);
+""", includes_c=["supla_esp.h", "supla_esp_cfg.h"])
+    a.update(h)
     a.update(b)
     a.update(c)
     a.update(d)
@@ -168,6 +175,7 @@ def emit_consts():
         "import SuplaVerif.Model.CalCfg",
         "import SuplaVerif.Model.KeepAlive",
         "import SuplaVerif.Model.Countdown",
+        "import SuplaVerif.Model.CfgStore",
         "namespace SuplaVerif.Gen",
         "",
         "def protoParams : ProtoParams :=",
@@ -220,6 +228,10 @@ def emit_consts():
         "  { pingWindow := %s, reconnectAdd := %s, wdTimeout := %s, wdSoft := %s }" % (
             k["ka_window"], k["ka_reconnect"], k["wd_timeout"], k["wd_soft"]),
         "def cdParams : CdParams := { minP := %s, maxP := %s, div := %s }" % (k["cd_min"], k["cd_max"], k["cd_div"]),
+        "def cfgLayout : CfgLayout := { recLen := %s, guidLen := %s, authLen := %s, tag := [83, 85, 80, 76, 65, 7] }" % (
+            k["cfg_len"], k["cfg_guid"], k["cfg_auth"]),
+        "theorem cfg_offsets_ok : (%s, %s, %s) = (6, 6 + %s, 6 + %s + %s) := by decide" % (
+            k["cfg_off_guid"], k["cfg_off_auth"], k["cfg_off_server"], k["cfg_guid"], k["cfg_guid"], k["cfg_auth"]),
         "def dnsTimeoutMs : Nat := %s" % k["dns_timeout"],
         "def dnsRetryMs : Nat := %s" % k["dns_retry"],
         "/-- field offsets / literals of the reply parser the model hard-codes -/",
